@@ -32,6 +32,7 @@ pub const KF_BLOCK_OPERAND: &str = "C01-wasm-block-operand";
 pub const KF_PROJ_COND: &str = "C01-wasm-proj-in-cond-and-arm";
 pub const KF_CAPTURE_DESTRUCTURED: &str = "C01-wasm-closure-captures-destructured";
 pub const KF_ARRAY_INF: &str = "C01-array-index-infinite";
+pub const KF_WASM_UNCALLED_MATCH_FN: &str = "C01-wasm-uncalled-match-function-without-annotation";
 
 pub fn pcfg(cx: &Cx) -> (PCfg, Vec<&'static str>) {
     let mut c = PCfg::default();
@@ -263,10 +264,12 @@ impl Prop for C01 {
             Tier::Quick => vec![
                 Space { name: "gen", size: 3000, exhaustive: false, chunk: 60, case_timeout_s: 60.0, what: "generated typed core-language programs x input streams x run lengths" },
                 Space { name: "corpus", size: 500, exhaustive: false, chunk: 20, case_timeout_s: 60.0, what: "shipped sources and literal/operator mutants of them" },
+                Space { name: "sum", size: 1500, exhaustive: false, chunk: 50, case_timeout_s: 60.0, what: "generated programs over user-declared (also recursive) sum types with constructor matches" },
             ],
             Tier::Thorough => vec![
                 Space { name: "gen", size: 120_000, exhaustive: false, chunk: 200, case_timeout_s: 60.0, what: "generated typed core-language programs x input streams x run lengths" },
                 Space { name: "corpus", size: 20_000, exhaustive: false, chunk: 50, case_timeout_s: 60.0, what: "shipped sources and literal/operator mutants of them" },
+                Space { name: "sum", size: 60_000, exhaustive: false, chunk: 100, case_timeout_s: 60.0, what: "generated programs over user-declared (also recursive) sum types with constructor matches" },
             ],
         }
     }
@@ -284,6 +287,31 @@ impl Prop for C01 {
                 let mut r = finish(&src, &inputs, n, false, std::mem::take(&mut classes), feat.stateful(), cx, "gen");
                 for id in off {
                     r.count(&format!("generator_switch_off:{id}"), 1);
+                }
+                r
+            }
+            "sum" => {
+                let mut scfg = crate::gens::sumgen::SumCfg::default();
+                if cx.excluded(crate::props::c03::KF_SUM_LONE_REC) {
+                    scfg.lone_recursive_payload = false;
+                }
+                if cx.excluded(KF_WASM_UNCALLED_MATCH_FN) {
+                    scfg.unannotated_params = false;
+                }
+                let p = crate::gens::sumgen::generate(g, &scfg);
+                let src = crate::gens::sumgen::render(&p);
+                let inputs = gen_inputs(g);
+                let n = *g.pick(&[4u64, 8, 3]);
+                let mut classes = vec!["mode:sum".to_string()];
+                if p.types.iter().any(|t| t.rec) {
+                    classes.push("sum:recursive".into());
+                }
+                let mut r = finish(&src, &inputs, n, false, classes, true, cx, "sum");
+                if cx.excluded(crate::props::c03::KF_SUM_LONE_REC) {
+                    r.count(&format!("generator_switch_off:{}", crate::props::c03::KF_SUM_LONE_REC), 1);
+                }
+                if cx.excluded(KF_WASM_UNCALLED_MATCH_FN) {
+                    r.count(&format!("generator_switch_off:{KF_WASM_UNCALLED_MATCH_FN}"), 1);
                 }
                 r
             }
